@@ -82,6 +82,11 @@ def run_wrapper(rng, obs):
         if maxiter is None: eff_maxiter = default
         if maxfun is None: eff_maxfun = default
         obs.event('wrapper_default_limits')
+    if which in ('fmin', 'fmin_powell'):
+        # a limit left at None is the documented default (nDim*nPop*200 for Nelder-Mead, nDim*1000 for Powell; nPop = 1): a long run may well reach it
+        default = dim * (200 if which == 'fmin' else 1000)
+        if eff_maxiter is None: eff_maxiter = default
+        if eff_maxfun is None: eff_maxfun = default
     out = {'fmin': fmin, 'fmin_powell': fmin_powell, 'diffev': diffev, 'diffev2': diffev2}[which](probe, x0, **kw)
     it, fc, wf = int(out[2]), int(out[3]), int(out[4])
     obs.desc = {'wrapper': which, 'dim': dim, 'cost': cost_spec, 'x0': x0, 'maxiter': maxiter, 'maxfun': maxfun, 'tolerances': kw.get('xtol')}
